@@ -12,6 +12,7 @@ the mapping-aware unitary oracle and the measurement oracle of
 from __future__ import annotations
 
 import itertools as it
+import os
 
 from vf import c01_cases as K
 from vf import c01_driver as D
@@ -348,6 +349,8 @@ def run(ctx: Ctx) -> None:
     # ---- the "number of workers / schedule" quantifier: real compile()
     # runs inside the E1 world under every schedule with <= 1 deviation
     # (vf/c01_world.py; same oracle).  Reports through ctx.
+    if os.environ.get('VERIF_C01_NO_WORLD'):     # isolate the loop-back part
+        return
     try:
         from vf import c01_world
         st = c01_world.run_part(ctx, seconds=45 if ctx.quick else 900)
